@@ -75,6 +75,9 @@ def job(j: dict) -> dict:
     tracef = str(root.parent / "h2.ndjson")
     os.environ["THAILINT_VERIF_TRACE"] = tracef
     targets = sorted("/".join(t) or "." for t in j["target"])          # a target is a set of path arguments
+    if j.get("dotdot"):
+        # the same directories spelled through a sibling: sub/../src (what is linted does not depend on the spelling)
+        targets = [("sub/../" + t) if t != "." else "sub/.." for t in targets]
     argv = ["magic-numbers"] + ([] if j["recursive"] else ["--no-recursive"]) + targets + j["explicit"]
     r = drive.cli_json(argv, cwd=root)
     linted = set()
@@ -130,7 +133,7 @@ def run(chk) -> None:
             if (i + len(car)) % 3 == 0 and skip:
                 explicit = [skip[(i * 7) % len(skip)], skip[(i * 13 + 5) % len(skip)]]
             jobs.append({"pats": c["pats"], "recursive": c["recursive"], "target": c["target"],
-                         "carrier": car, "explicit": explicit, "case": i,
+                         "carrier": car, "explicit": explicit, "case": i, "dotdot": (i + len(car)) % 4 == 1,
                          "root": str(scratch_root() / f"c14-{len(jobs)}" / "proj")})
     # the universe is the union of must_lint/must_skip/dont-care of the root recursive no-pattern case
     base = next(c for c in cases if not c["pats"] and c["recursive"] and [list(t) for t in c["target"]] == [[]])
@@ -147,7 +150,7 @@ def run(chk) -> None:
             raise MachineryError(f"C14 job failed: {r_.error}")
         o = r_.value
         case = {"pats": [pattern_text(p) for p in j["pats"]], "target": " ".join(sorted("/".join(t) or "." for t in j["target"])),
-                "recursive": j["recursive"], "carrier": j["carrier"], "explicit": j["explicit"]}
+                "recursive": j["recursive"], "carrier": j["carrier"], "explicit": j["explicit"], "dotdot": j.get("dotdot", False)}
         if o["reported"] is None:
             chk.reject({"clause": "NoOutput", "carrier": j["carrier"]}, case,
                        f"magic-numbers produced no JSON (exit {o['exit']}): {o['stderr'][-200:]}")
